@@ -42,12 +42,12 @@ def rfc9112_framing(is_request: bool, req_method: bytes | None, status: int | No
     te_values / cl_values: the raw field values of all Transfer-Encoding / Content-Length field lines, in order."""
     if not is_request:
         # rule 1
-        if req_method is not None and req_method.upper() == b"HEAD":
+        if req_method == b"HEAD":  # RFC 9110 §9.1: the method token is case-sensitive
             return ("none",)
         if 100 <= status <= 199 or status in (204, 304):
             return ("none",)
         # rule 2
-        if 200 <= status <= 299 and req_method is not None and req_method.upper() == b"CONNECT":
+        if 200 <= status <= 299 and req_method == b"CONNECT":
             return ("tunnel",)
     if te_values:
         # §6.1: Transfer-Encoding in an HTTP/1.0 message: framing is faulty
